@@ -5677,8 +5677,8 @@ func (cl *describeShareGroupOffsetsSharder) shard(ctx context.Context, kreq kmsg
 	}
 	coordinators := cl.loadCoordinators(ctx, coordinatorTypeGroup, groupIDs...)
 	type unkerr struct {
-		err     error
-		groupID string
+		err   error
+		group kmsg.DescribeShareGroupOffsetsRequestGroup
 	}
 	var (
 		brokerReqs = make(map[int32]*kmsg.DescribeShareGroupOffsetsRequest)
@@ -5704,7 +5704,7 @@ func (cl *describeShareGroupOffsetsSharder) shard(ctx context.Context, kreq kmsg
 		case errors.As(berr.err, &ke):
 			kerrs[ke] = append(kerrs[ke], g)
 		default:
-			unkerrs = append(unkerrs, unkerr{berr.err, g.GroupID})
+			unkerrs = append(unkerrs, unkerr{berr.err, g})
 		}
 	}
 	var issues []issueShard
@@ -5716,7 +5716,7 @@ func (cl *describeShareGroupOffsetsSharder) shard(ctx context.Context, kreq kmsg
 	}
 	for _, unkerr := range unkerrs {
 		issues = append(issues, issueShard{
-			req: newReq(kmsg.DescribeShareGroupOffsetsRequestGroup{GroupID: unkerr.groupID}),
+			req: newReq(unkerr.group), // the whole group: its topics must stay accounted for
 			err: unkerr.err,
 		})
 	}
